@@ -310,3 +310,44 @@ macro_rules! register_hashmap {
         ];
     };
 }
+
+/// Model of `core::str::count::do_count_chars` (the word-at-a-time character counter std uses
+/// for strings of 32 bytes or more): same result, computed byte by byte.  The real one goes
+/// through `align_to`, whose split CBMC treats as nondeterministic, and does not finish.  It is
+/// only reachable if the code under test counts characters; used by the harnesses that put
+/// multi-byte text at a byte limit.
+#[cfg(kani)]
+pub fn count_chars_model(s: &str) -> usize {
+    let b = s.as_bytes();
+    let mut n = 0;
+    let mut i = 0;
+    while i < b.len() {
+        if (b[i] as i8) >= -0x40 {
+            n += 1;
+        }
+        i += 1;
+    }
+    n
+}
+
+/// As [`register!`], with `do_count_chars` replaced by [`count_chars_model`].
+#[macro_export]
+macro_rules! register_strcount {
+    ($($name:ident = $path:expr => $unwind:literal),* $(,)?) => {
+        $(
+            #[cfg(kani)]
+            #[kani::proof]
+            #[kani::unwind($unwind)]
+            #[kani::stub(core::str::count::do_count_chars, $crate::count_chars_model)]
+            pub fn $name() {
+                let mut k = $crate::K;
+                ($path)(&mut k);
+            }
+        )*
+
+        #[cfg(not(kani))]
+        pub const REGISTRY_STRCOUNT: &[(&str, fn(&mut $crate::R))] = &[
+            $( (stringify!($name), |r: &mut $crate::R| ($path)(r)), )*
+        ];
+    };
+}
